@@ -611,6 +611,19 @@ def c10_extra(ctx):
 
     run = ctx.run
     hs = record_harnesses(tier())
+    # the stream handed to the matcher encodes THIS run's instruction list, also right after a run that failed
+    from vlib import jasmapi
+
+    la = "    1000:\t48 89 c3             \tmov    %rax,%rbx\n    1003:\tc3                   \tret\n"
+    lb = "    2000:\t90                   \tnop\n    2001:\tc3                   \tret\n"
+    try:
+        jasmapi.run_pipeline({"pattern": ["mov("]}, la, ret="list")
+    except Exception:
+        pass
+    got = jasmapi.run_pipeline({"pattern": ["ret"]}, lb, ret="stream")
+    run.count("traces_validated_against_impl")
+    if got != "2000::nop,,|2001::ret,,|":
+        run.failure("record_format/after_failed_run", f"stream of a run that follows a failed run: {got!r}", {"kind": "lx_stream", "text": got})
     hs += [h for h in c09.harnesses(tier()) if any(x in h.name for x in ("/mem4/", "/mem3/", "/mem1/", "/mem0/", "/pair", "/mem4_nobase/", "/mem3_suffix/", "/mem0_suffix/"))]
     ch.run_harnesses(run, hs)
 
